@@ -1,8 +1,81 @@
 import Solvor.Common.Proto
 import Solvor.Lp.Model
-/-! Lp: line-protocol handler. One request line in, one reply line out. -/
-namespace Solvor.Lp
+/-! Lp: line-protocol handler.
 
-def handle (line : String) : String := "unimplemented " ++ line
+request `["lp", c, A, b, minimize, eps, maxIter, tol, vtol, lpImpl, ipmImpl, ipmTolFeas, ipmTolObj, ipmResid]`
+  c, b : rationals `[num, den]`; A : rows of rationals; eps, tol… : rationals
+  lpImpl / ipmImpl : `null` or `[status, x | null, obj | null]` (what solve_lp / solve_lp_interior returned)
+reply `[model, truth, lpChecks | null, ipmChecks | null]`
+  model    = `[status, x, obj | null, iters, phase1, near, certOk]`  (mirror run at the given eps, max_iter)
+  truth    = `[verdict, opt | null, certOk]` : verdict of the exact run (eps = 0) and whether the verified
+             checker `chkOptimal/chkInfeasible/chkUnbounded` accepted its certificate (verdict "NONE" if not);
+             `opt` in the caller's sense
+  lpChecks = `[feasTol, objAt, objNear, vertexNear]` verified checkers on solve_lp's point
+  ipmChecks= `[feasTol, objAt, objNear, residualOk]` on solve_lp_interior's point
+-/
+namespace Solvor.Lp
+open Solvor.Proto
+
+/-- fuel of the exact run (Bland's rule terminates; far above anything a quick/thorough case needs) -/
+def exactFuel : Nat := 200000
+
+def statusOf? : String → Option Solvor.Gen.Status
+  | "OPTIMAL" => some .OPTIMAL | "FEASIBLE" => some .FEASIBLE | "INFEASIBLE" => some .INFEASIBLE
+  | "UNBOUNDED" => some .UNBOUNDED | "MAX_ITER" => some .MAX_ITER | _ => none
+
+structure Impl where
+  status : String
+  x : Option Vec
+  obj : Option Rat
+
+def Impl.parse? : Val → Option (Option Impl)
+  | .null => some none
+  | .arr [s, x, o] => do
+      let s ← s.toStr?
+      let x ← x.toOpt? Val.toRats?
+      let o ← o.toOpt? Val.toRat?
+      pure (some ⟨s, x, o⟩)
+  | _ => none
+
+def handleLp (args : List Val) : Option String := do
+  let [c, A, b, mn, eps, mi, tol, vtol, lpI, ipI, itf, ito, ires] := args | none
+  let c ← c.toRats?; let A ← A.toRatss?; let b ← b.toRats?; let mn ← mn.toBool?
+  let eps ← eps.toRat?; let mi ← mi.toNat?; let tol ← tol.toRat?; let vtol ← vtol.toRat?
+  let lpI ← Impl.parse? lpI; let ipI ← Impl.parse? ipI
+  let itf ← itf.toRat?; let ito ← ito.toRat?; let ires ← ires.toRat?
+  let P := mkLP c A b mn
+  let U : LP := ⟨A, b, c⟩            -- caller's objective, for `c·x = obj`
+  let o := solveLp c A b mn eps mi
+  let e := solveLp c A b mn 0 exactFuel
+  let eOk := certifies P e
+  let (verdict, opt, tOk) :=
+    if eOk then (e.status.name, e.objective, true)
+    else if certifies P o then (o.status.name, o.objective, true)
+    else ("NONE", none, false)
+  let opt := if verdict == "OPTIMAL" then opt else none
+  let model := Val.arr [.str o.status.name, .ofRats o.x, .ofOpt .ofRat o.objective, .int o.iters,
+    .bool o.phase1, .bool o.near, .bool (certifies P o)]
+  let truth := Val.arr [.str verdict, .ofOpt .ofRat opt, .bool tOk]
+  let chk (i : Impl) (tf to : Rat) (last : Vec → Bool) : Val :=
+    match i.x with
+    | none => .null
+    | some x =>
+      let objAt := match i.obj with | some ob => chkObjAt U to x ob | none => false
+      let objNear := match i.obj, opt with
+        | some ob, some op => chkObjNear to ob op
+        | _, _ => false
+      .arr [.bool (x.length == U.n && chkFeasTol U tf x), .bool objAt, .bool objNear, .bool (last x)]
+  let lpC := match lpI with
+    | none => Val.null
+    | some i => chk i tol tol (fun x => vecNear vtol x o.x)
+  let ipC := match ipI with
+    | none => Val.null
+    | some i => chk i itf ito (fun x => x.length == U.n && chkResidual U ires x)
+  pure (Val.arr [model, truth, lpC, ipC]).render
+
+def handle (line : String) : String :=
+  match request line with
+  | some ("lp", args) => (handleLp args).getD (err "bad arguments")
+  | _ => err "bad request"
 
 end Solvor.Lp
